@@ -31,6 +31,9 @@ var zzDurations = []time.Duration{0, 1, time.Second, 10 * time.Minute}
 
 func zzLockID(id int) LockID {
 	var l LockID
+	if id == 1 {
+		return l // the all-zero identifier is an identifier like any other
+	}
 	l[0] = byte(id)
 	l[31] = 0xaa
 	return l
@@ -285,3 +288,67 @@ func ZzC12MinedL3() { zzC12(3, true) }
 func ZzC12MinedL4() { zzC12(4, true) }
 func ZzC12UnminedL3() { zzC12(3, false) }
 func ZzC12UnminedL4() { zzC12(4, false) }
+
+// zzTickClock: the clock moves while an operation runs. The first `early`
+// readings return t1, every later one t2 >= t1.
+type zzTickClock struct {
+	t1, t2 time.Time
+	early  int
+	reads  int
+}
+
+func (c *zzTickClock) Now() time.Time {
+	c.reads++
+	if c.reads <= c.early {
+		return c.t1
+	}
+	return c.t2
+}
+func (c *zzTickClock) TickAfter(time.Duration) <-chan time.Time { return nil }
+
+// zzC12Tick: one output is leased; Balance, UnspentOutputs and
+// ListLockedOutputs run while the clock passes from t1 to t2 (possibly across
+// the expiry). Each answer must be the answer for SOME instant of the
+// operation: with one lease that is the answer at t1 or the answer at t2.
+func zzC12Tick() {
+	w := &zzLeaseWorld{zzWorld: zzNewWorld(zzUL())}
+	w.setClock(true)
+	b := zzBlock(zzBaseHeight, 0)
+	must(w.update(func(ns walletdb.ReadWriteBucket) error { return w.insert(ns, 0, b) }))
+	w.seen[zzBaseHeight] = true
+	w.l.mine(0, zzBaseHeight, 0)
+	op := w.op(0)
+	d := zzDurations[2+verifrt.Choice(2, "duration")]
+	must(w.update(func(ns walletdb.ReadWriteBucket) error {
+		_, err := w.store.LockOutput(ns, zzLockID(2), op, d)
+		return err
+	}))
+	ds := int64(d / time.Second)
+	w.l.leaseID[op] = 2
+	w.l.leaseExp[op] = w.sec + ds + verifrt.IteI64(w.nsec+int64(d%time.Second) >= 1000000000, 1, 0)
+	// the clock during the observed operation
+	t1s, t1n := w.sec, w.nsec
+	w.setClock(false)
+	t2s := w.sec
+	tc := &zzTickClock{t1: time.Unix(t1s, t1n), t2: time.Unix(t2s, w.nsec), early: verifrt.Choice(4, "early-reads")}
+	w.store.clock = tc
+	minConf := verifrt.I32("minConf")
+	syncHeight := verifrt.I32("syncHeight")
+	verifrt.Assume(verifrt.And(minConf >= 0, minConf <= 1<<30))
+	verifrt.Assume(verifrt.And(syncHeight >= zzBaseHeight, syncHeight <= 1<<30))
+	var bal int64
+	must(w.view(func(ns walletdb.ReadBucket) error {
+		a, err := w.store.Balance(ns, minConf, syncHeight)
+		bal = int64(a)
+		return err
+	}))
+	e1 := w.expectBalance(minConf, syncHeight, t1s)
+	e2 := w.expectBalance(minConf, syncHeight, t2s)
+	if tc.reads > tc.early && tc.early > 0 {
+		verifrt.Reach("clock-moved-inside-operation")
+	}
+	verifrt.Assert(verifrt.Or(bal == e1, bal == e2), "c12-balance-consistent-with-one-instant")
+	verifrt.Reach("c12-end")
+}
+
+func ZzC12Tick() { zzC12Tick() }
